@@ -53,7 +53,7 @@ RULE = ("a case = (scenario, container kind, key/value kinds, layout, routing, b
         "either order, and both runs (every sub-communicator group and the world) are judged with the same oracles / model comparison; "
         "map / multimap scenarios copy-construct container 1 from container 0 (custom defaults) and continue at once, without a barrier, on "
         "the copy and on the original (copy = same contents + same default, then independent), incl. loops of several copies after "
-        "rank-skewed work at capacity 0; in 40 % of the scenarios some ranks call comm.stats_reset() between operations and after barriers")
+        "rank-skewed work at capacity 0; in 40 % of the scenarios some ranks call comm.stats_reset() between operations and after barriers; environment dimension rotated over the cases: YGM_COMM_ISSEND_FREQ in {0,1,8}, YGM_COMM_NUM_IRECVS in {1,2,8}, YGM_COMM_NUM_ISENDS_WAIT in {0,1,4}, capacity 0 / 1 KB / default for every container kind, cyclic rank placement for a third of the multi-node cases; uint64 keys / values over the whole 64-bit range; the order search keeps the program order of every sender (per-sender FIFO), dependent pairs of one rank on one key and reductions around a swap in opposite key order are generated on purpose")
 
 LAYOUTS = [(1, 2), (1, 3), (2, 2), (1, 5), (2, 3), (1, 7), (2, 4), (4, 2), (1, 4), (3, 2), (1, 8), (1, 6)]
 ROUTINGS = ["NONE", "NR", "NLNR"]
@@ -1093,6 +1093,8 @@ FLAVOURS = ([MapFlavour(w, k, v) for v in ("d", "g") for w in ("map", "multimap"
             + [MapFlavour(w, k, "p") for w in ("map", "multimap") for k in ("ss", "is")]
             + [MapFlavour(w, k, "d") for w in ("map", "multimap") for k in ("uu", "us")])
 ASSUME = ["every operation is executed exactly once, atomically, on owner(key) before the barrier returns (C01/C02/C08; Dist.Complete)",
+          "operations issued by one rank (resp. by the handlers of one rank) for one owner are executed in the order they were issued (MPI non-overtaking + "
+          "one route per pair); the order search of the multi-rank oracle requires it",
           "std::multimap keeps equal keys in insertion order; std::hash is a parameter (owners are read from the real run)",
           "runs aborted by the messaging layer (comm.ipp assertion, deadlock) are C03's subject and are skipped here, counted in the distribution"]
 
